@@ -157,7 +157,7 @@ theorem burst_mkdir_rename (s : Sys) (p q : P) (inv : InvRec s.fs s.k s.lib) (hs
                 lib := (s.lib.remember s.k.nextCookie p).withWatch q s.k.nextWd, stopped := false },
        [mkEv .DirCreatedEvent p, dirMod p, mkEv .DirMovedEvent p q, dirMod p, dirMod q]) := by
     unfold Sys.burst
-    simp only [hk, hs, hc, Bool.or_self, Bool.false_eq_true, if_false, hl, hgs, hem, hmo]
+    simp only [hk, hs, hc, Bool.or_self, Bool.false_eq_true, if_false, hl, hgs, hem, departed_nil _ hmo]
     simp [forgetAll_nil]
   rw [hburst]
   refine ⟨rfl, rfl, rfl, hc, ?_⟩
